@@ -6,15 +6,11 @@ import pathlib
 VERIF = pathlib.Path(__file__).resolve().parent.parent
 ALL = [f"C{i:02d}" for i in range(1, 31)]
 
-# property -> (technique, level text, level_note, design_ref)
-CLAIMED = {
-    "C27": (
-        "Lean 4 theorems (wrap_join, wrap_fits, article rule) over an exact model of wrap_text_into_lines for all texts/widths/article lists; model tied to the source by regenerated Gen tables + differential correspondence",
-        "Machine-checked proof (Lean 4 kernel) that the model of common.wrap_text_into_lines preserves the text, keeps every segment within the width unless it is one token, and never leaves an article dangling, for every text, width and article list; the model is compared with the real function on enumerated and random texts on every run.",
-        "Trusted: Lean kernel, propext/Classical.choice/Quot.sound, harness/extract.py (articles + default width), the correspondence harness; Python str.split/join semantics are validated by correspondence, not verified.",
-        "DESIGN.md 3 C27",
-    ),
-}
+# One file per claimed property: manifest.d/Cxx.json with keys technique, text, note, ref.
+CLAIMED = {}
+for _p in sorted((VERIF / "manifest.d").glob("C*.json")):
+    _d = json.loads(_p.read_text())
+    CLAIMED[_p.stem] = (_d["technique"], _d["text"], _d["note"], _d["ref"])
 
 NOT_YET = "check not built yet in this round (plan: DESIGN.md section 3); not claimed until model, theorems and correspondence exist"
 
